@@ -12,6 +12,7 @@ import (
 	"os"
 	"path/filepath"
 	"strconv"
+	"strings"
 )
 
 // ImageFormat 图片格式类型
@@ -990,8 +991,9 @@ func (d *Document) addImageContentType(format ImageFormat) {
 	}
 
 	// 检查是否已存在相同的默认类型
+	// （扩展名不区分大小写：打开的文档里可能写成 "PNG"）
 	for _, def := range d.contentTypes.Defaults {
-		if def.Extension == extension {
+		if strings.EqualFold(def.Extension, extension) {
 			return
 		}
 	}
